@@ -132,6 +132,17 @@ add(
     "DESIGN.md §4 C07",
 )
 
+add(
+    "C10", "exploration",
+    "complete walk (file-type tables and --style names x line modes) + Hypothesis over options and tag-free bodies; metamorphic oracle: bytes after run 1 == bytes after run N",
+    "Every file type and every --style name in default, --multi-line and --single-line mode, plus ~8000 sampled combinations per quick run (.license "
+    "options, prefixes, year options, four template kinds, bodies with code / same-style comments / shebangs / blank runs / no final newline, LF/CRLF/CR, "
+    "2..4 runs) are annotated repeatedly with identical arguments; the whole tree must be byte-identical after every later run and each requested tag "
+    "line must occur exactly once.",
+    "Bodies carry no REUSE tags of their own; a later run that is refused as a usage error (and changes nothing) is not a violation.",
+    "DESIGN.md §4 C10",
+)
+
 NOT_BUILT = "check not built yet in this revision of /verif (planned in DESIGN.md §4; property-based testing applies)"
 
 
